@@ -195,62 +195,81 @@ func c13(c *hx.Ctx) {
 		return k
 	}
 	calls := 0
-	derive := func(ctx, salt []byte, p privIn, n int) dres {
-		var r dres
-		calls++
-		// every other call: out and salt are sub-slices of larger buffers (spare capacity, sentinels around)
-		whole := bytes.Repeat([]byte{0xA5}, n+16)
-		out := whole[5 : 5+n]
-		if calls%2 == 0 {
-			out = make([]byte, n)
-		}
-		saltArg := salt
-		var saltWhole []byte
-		if salt != nil && calls%2 == 1 {
-			saltWhole = bytes.Repeat([]byte{0x5A}, len(salt)+9)
-			copy(saltWhole[4:], salt)
-			saltArg = saltWhole[4 : 4+len(salt)]
-		} else if salt != nil {
-			saltArg = append([]byte{}, salt...)
-		}
+	// one raw call; salt and out are passed exactly as given
+	derive1 := func(ctx, salt []byte, pk crypto.PrivKey, out []byte) dres {
 		var err error
+		panicked, pv := hx.Catch(func() { err = peer.DeriveKey(string(ctx), salt, pk, out) })
+		if panicked {
+			return dres{cls: 9, pv: pv}
+		}
+		r := dres{cls: classify(err)}
+		if err == nil {
+			r.out = append([]byte{}, out...)
+		}
+		return r
+	}
+	sameRes := func(a, b dres) bool { return a.cls == b.cls && bytes.Equal(a.out, b.out) }
+	// derive runs DeriveKey; every other call with salt and out as sub-slices of
+	// larger patterned buffers (>= 96 bytes of spare capacity), then again with the
+	// SAME slices, then with fresh exact-capacity copies: arguments and the bytes
+	// around them must be untouched and all three results equal.
+	derive := func(ctx, salt []byte, p privIn, n int) dres {
+		calls++
 		pk := realPriv(p)
 		var rawBefore []byte
 		if pk != nil {
 			rawBefore, _ = pk.Raw()
 		}
-		panicked, pv := hx.Catch(func() { err = peer.DeriveKey(string(ctx), saltArg, pk, out) })
-		ad := map[string]any{"kind": "DeriveKey", "context_hex": hx.Hex(ctx), "salt_hex": hx.Hex(salt), "key": p.desc(), "len": n}
-		if !bytes.Equal(saltArg, salt) {
-			c.Failf("c13-argument-modified", ad, "DeriveKey modified its salt argument")
+		ad := map[string]any{"kind": "DeriveKey", "context": string(ctx), "context_hex": hx.Hex(ctx), "salt_hex": hx.Hex(salt), "salt_nil": salt == nil, "key": p.desc(), "len": n}
+		fresh := func() dres {
+			var sc []byte
+			if salt != nil {
+				sc = make([]byte, len(salt))
+				copy(sc, salt)
+			}
+			r := derive1(ctx, sc, pk, make([]byte, n))
+			if !bytes.Equal(sc, salt) {
+				c.Failf("c13-argument-modified", ad, "DeriveKey modified its salt argument")
+			}
+			return r
 		}
-		if saltWhole != nil {
-			for i, b := range saltWhole {
-				if (i < 4 || i >= 4+len(salt)) && b != 0x5A {
-					c.Failf("c13-argument-modified", ad, "DeriveKey wrote outside the salt slice")
-					break
+		var r dres
+		if calls%2 == 1 {
+			saltArg, gs := guardBytes(salt)
+			out, gout := guardOut(n)
+			r = derive1(ctx, saltArg, pk, out)
+			check := func(when string) {
+				if gs.argChanged() {
+					c.Failf("c13-argument-modified", ad, "DeriveKey modified its salt argument (%s; salt passed as a sub-slice with spare capacity)", when)
+				}
+				if gs.outsideChanged() {
+					c.Failf("c13-argument-modified", ad, "DeriveKey wrote to the caller's buffer outside the salt slice, between len and cap (%s)", when)
+				}
+				if gout.outsideChanged() {
+					c.Failf("c13-writes-outside-out", ad, "DeriveKey wrote outside the out slice (%s)", when)
 				}
 			}
+			check("first call")
+			if r.cls != 9 {
+				r2 := derive1(ctx, saltArg, pk, out) // the SAME slices again
+				c.Eval()
+				check("second call")
+				if !sameRes(r, r2) {
+					c.Failf("c13-repeated-call-differs", ad, "a second DeriveKey call with the same salt and out slices gave a different result")
+				}
+				r3 := fresh()
+				c.Eval()
+				if !sameRes(r, r3) {
+					c.Failf("c13-repeated-call-differs", ad, "DeriveKey with a fresh exact-capacity copy of the salt gave a different result than with the salt as a sub-slice of a larger buffer")
+				}
+			}
+		} else {
+			r = fresh()
 		}
 		if pk != nil {
 			if rawAfter, _ := pk.Raw(); !bytes.Equal(rawBefore, rawAfter) {
 				c.Failf("c13-argument-modified", ad, "DeriveKey modified the private key it was given")
 			}
-		}
-		if calls%2 == 1 {
-			for i, b := range whole {
-				if (i < 5 || i >= 5+n) && b != 0xA5 {
-					c.Failf("c13-writes-outside-out", ad, "DeriveKey wrote outside the out slice (spare capacity)")
-					break
-				}
-			}
-		}
-		if panicked {
-			return dres{cls: 9, pv: pv}
-		}
-		r.cls = classify(err)
-		if err == nil {
-			r.out = out
 		}
 		return r
 	}
@@ -395,21 +414,38 @@ func c13(c *hx.Ctx) {
 			var pub crypto.PubKey
 			var err error
 			pk := realPriv(x.p)
-			saltArg := x.salt
-			if x.salt != nil {
-				saltArg = append(make([]byte, 0, len(x.salt)+8), x.salt...)
-			}
+			saltArg, gs := guardBytes(x.salt)
 			var rawBefore []byte
 			if pk != nil {
 				rawBefore, _ = pk.Raw()
 			}
+			ed := map[string]any{"kind": "DeriveEd25519Key", "context_hex": hx.Hex(x.ctx), "salt_hex": hx.Hex(x.salt), "key": x.p.desc()}
 			panicked, pv := hx.Catch(func() { priv, pub, err = peer.DeriveEd25519Key(string(x.ctx), saltArg, pk) })
-			if !bytes.Equal(saltArg, x.salt) {
-				c.Failf("c13-argument-modified", map[string]any{"kind": "DeriveEd25519Key", "salt_hex": hx.Hex(x.salt)}, "DeriveEd25519Key modified its salt argument")
+			if gs.argChanged() || gs.outsideChanged() {
+				c.Failf("c13-argument-modified", ed, "DeriveEd25519Key modified its salt argument or the caller's buffer around it (salt passed as a sub-slice with spare capacity)")
+			}
+			if !panicked && err == nil {
+				// the same slice again, then a fresh exact-capacity copy
+				for rep := 0; rep < 2; rep++ {
+					arg := saltArg
+					if rep == 1 && x.salt != nil {
+						arg = append(make([]byte, 0, len(x.salt)), x.salt...)
+					}
+					var pub2 crypto.PubKey
+					var err2 error
+					p2, _ := hx.Catch(func() { _, pub2, err2 = peer.DeriveEd25519Key(string(x.ctx), arg, pk) })
+					c.Eval()
+					if p2 || err2 != nil || !pub2.Equals(pub) {
+						c.Failf("c13-repeated-call-differs", ed, "repeating DeriveEd25519Key (rep %d: 0 = same salt slice, 1 = fresh copy) gave a different key", rep)
+					}
+				}
+				if gs.argChanged() || gs.outsideChanged() {
+					c.Failf("c13-argument-modified", ed, "DeriveEd25519Key modified its salt argument or the caller's buffer around it")
+				}
 			}
 			if pk != nil {
 				if rawAfter, _ := pk.Raw(); !bytes.Equal(rawBefore, rawAfter) {
-					c.Failf("c13-argument-modified", map[string]any{"kind": "DeriveEd25519Key", "key": x.p.desc()}, "DeriveEd25519Key modified the private key it was given")
+					c.Failf("c13-argument-modified", ed, "DeriveEd25519Key modified the private key it was given")
 				}
 			}
 			if panicked {
@@ -521,10 +557,11 @@ func c14(c *hx.Ctx) {
 			c.Failf("c14-input-mutated", desc, "the input slice was modified")
 		}
 		if !panicked && !panicked2 {
-			// same bytes inside a larger buffer (spare capacity), called twice
-			whole := bytes.Repeat([]byte{0xA5}, len(ge)+16)
-			copy(whole[5:], ge)
-			sub := whole[5 : 5+len(ge)]
+			// same bytes as a sub-slice of a larger patterned buffer (96 bytes spare capacity), called twice with the SAME slice
+			sub, g := guardBytes(ge)
+			if sub == nil {
+				sub, g = guardBytes([]byte{})
+			}
 			for rep := 0; rep < 2; rep++ {
 				var lo2, valid2 bool
 				var conv2 []byte
@@ -534,17 +571,11 @@ func c14(c *hx.Ctx) {
 				})
 				c.Eval()
 				if p3 || lo2 != lo || valid2 != valid || !bytes.Equal(conv2, conv) {
-					c.Failf("c14-repeated-call-differs", desc2, "repeating the calls on the same bytes in a buffer with spare capacity gave a different result")
+					c.Failf("c14-repeated-call-differs", desc2, "repeating the calls on the same bytes as a sub-slice of a larger buffer gave a different result than on an exact-capacity copy")
 				}
-			}
-			for i, b := range whole {
-				if (i < 5 || i >= 5+len(ge)) && b != 0xA5 {
-					c.Failf("c14-input-mutated", desc2, "a byte outside the input slice was modified")
-					break
+				if g.argChanged() || g.outsideChanged() {
+					c.Failf("c14-input-mutated", desc2, "the input slice or the caller's buffer around it was modified")
 				}
-			}
-			if !bytes.Equal(sub, ge) {
-				c.Failf("c14-input-mutated", desc2, "the input slice was modified")
 			}
 		}
 		// ---- direct oracle (property text), 32-byte strings ----
